@@ -25,7 +25,9 @@ REQUIRED = ["parse_sound", "last_member_decides", "lc_exact", "lc_exact_fails_wi
             "honest_compact_passes_framing", "decoder_alone_is_not_injective",
             "store_bytes_refine_graph_add", "hash_list_append_parses", "clock_shelf_decodes", "find_between_lc_reads_every_stored_tx",
             "range_scan_stops_at_a_gap", "counters_read_back", "fact_store_bodies", "fact_store_keys",
-            "new_transaction_sound", "signed_transaction_parses_back", "created_signed_parsed_admitted", "hex_round_trip", "fact_create_bodies", "json_branch_puts_no_demand_on_the_bytes"]
+            "new_transaction_sound", "signed_transaction_parses_back", "created_signed_parsed_admitted", "hex_round_trip", "fact_create_bodies", "json_branch_puts_no_demand_on_the_bytes",
+            # deepening round 3: jwx.AlgorithmFitsKey inside the model, applied to the key the verifier resolved
+            "admitted_alg_fits_key", "alg_fits_ec_iff", "alg_must_fit_resolved_key", "fit_guard_must_see_the_resolved_key", "fact_alg_fits_key"]
 
 HEX64 = re.compile(r"^[0-9a-fA-F]{64}$")
 
@@ -267,7 +269,7 @@ def run(ctx):
     def replay_text(i):
         meta = json.dumps({"op": "meta", "leg": leg_of[i], "seed": ctx.seed})
         op = ops[i].get("op")
-        if op in ("parse", "framing", "hashlist", "newtx"):
+        if op in ("parse", "framing", "hashlist", "newtx", "algfit"):
             return meta + "\n" + raw_ops[i]
         return meta + "\n" + "\n".join(raw_ops[hist_start(i):i + 1])
 
@@ -623,6 +625,26 @@ def run(ctx):
         f"{n_add} adds: {n_admit} admitted, {n_reject} rejected ({n_cancel} with the context cancelled inside the write tx), {n_readd} re-adds")
 
 
+    # ------------------------------------------------------------------ oracle 2a' (round 3): jwx.AlgorithmFitsKey against RFC 7518 3.4 / RFC 8037
+    # restated here: an ECDSA key on P-256 / P-384 / P-521 fits exactly ES256 / ES384 / ES512; an Ed25519 key fits exactly EdDSA and
+    # must be 32 bytes long (a nil pointer fits nothing); other curves / key types are not judged (true).
+    n_algfit = 0
+    for i, op in enumerate(ops):
+        if op.get("op") != "algfit":
+            continue
+        n_algfit += 1
+        ty, _, arg = op["shape"].partition(":")
+        alg = op.get("alg", "")
+        if "ecdsa" in ty.lower():
+            want = {"P-256": alg == "ES256", "P-384": alg == "ES384", "P-521": alg == "ES512"}.get(arg, True)
+        elif "ed25519" in ty or "OKP" in ty:
+            want = alg == "EdDSA" and arg == "32"
+        else:
+            want = True
+        if impl[i] != ("fits=true" if want else "fits=false"):
+            violate("C06:algorithm-fits-key-wrong", f"jwx.AlgorithmFitsKey({alg!r}, {op['shape']}) answered {impl[i]}, RFC 7518 3.4 / RFC 8037 say {want}", i)
+    ctx.oblige("oracle:algorithm-fits-key(impl)", not any(s.startswith("C06:algorithm-fits-key-wrong") for s in seen_sig), f"{n_algfit} AlgorithmFitsKey calls")
+
     # ------------------------------------------------------------------ oracle 2b (deepening round): the bytes in the store, on the implementation's own dumps
     n_shelf = n_hashlist = n_ranges = 0
     last_obs = None
@@ -811,7 +833,7 @@ def run(ctx):
                        "real parseHashList/appendHashList/bytesToClock; (6) real NewTransaction + real Sign (in-memory JWS signer) on hostile arguments vs model. "
                        "distinct_nontrivial = distinct input byte strings offered")
     ctx.cov["input_distribution"] = {"ops": {k: v for k, v in sorted(stats.items())}, "mutation_classes": dict(notes.most_common(40)),
-                                     "parse_unmodelled_framing": n_unmodelled, "framing_inputs": n_framing, "new_transaction_sign_calls": n_newtx, "new_transaction_outcomes": dict(newtx_classes), "raw_store_dumps": n_shelf, "range_scans": n_ranges, "hash_list_inputs": n_hashlist, "framing_classes": dict(fr_notes.most_common(40)), "schedules": n_sched, "schedule_scenarios": n_groups,
+                                     "parse_unmodelled_framing": n_unmodelled, "framing_inputs": n_framing, "new_transaction_sign_calls": n_newtx, "new_transaction_outcomes": dict(newtx_classes), "raw_store_dumps": n_shelf, "range_scans": n_ranges, "hash_list_inputs": n_hashlist, "algorithm_fits_key_calls": n_algfit, "framing_classes": dict(fr_notes.most_common(40)), "schedules": n_sched, "schedule_scenarios": n_groups,
                                      "legs": dict(Counter(leg_of)), "transaction_lists(v2 handler)": n_list, "late_payloads(v2 handler)": n_late,
                                      "CreateTransaction calls (wired Network)": n_create,
                                      "adds": {"total": n_add, "admitted": n_admit, "rejected": n_reject, "re-adds": n_readd, "context-cancelled-in-write-tx": n_cancel}}
